@@ -66,6 +66,29 @@ class Prop(common.PropertyCheck):
             yield {'k': 'file', 'far': True, 'spec': {'version': ver, 'delim': '/', 'datatype': 'F' if i == 2 else 'I', 'byteord': '1,2,3,4', 'widths': ws,
                                                       'ranges': [1 << w for w in ws] if i != 2 else [1024, 1024], 'events': ev, 'placement': 'header', 'text_offsets_too': too,
                                                       'end_conv': 'last', 'pad_text': 0, 'pad_data': pad, 'pad_after': 0, 'order': 'TDA'}}
+        # a parameter named like the clock channel: masked to its declared range like every other parameter
+        for i in range(self.budget(30, 300)):
+            spec = fcsgen.gen_spec(rng, datatype='I', family=fcsgen.FAMILIES[i % 7])
+            if spec.get('malformed') or not spec['events']:
+                continue
+            D = len(spec['widths'])
+            spec['names'] = ['P%d' % (k + 1) for k in range(D)]
+            spec['names'][[D - 1, 0][i % 2]] = ['Time', 'TIME', 'time'][i % 3]
+            k = [D - 1, 0][i % 2]
+            w = spec['widths'][k]
+            spec['ranges'] = list(spec['ranges'])
+            spec['ranges'][k] = 1 << max(1, w - 3 - i % 4)         # fewer bits than the word is wide
+            spec['events'] = [list(r) for r in spec['events']]
+            spec['events'][0][k] = (1 << w) - 1 - (i % 5)           # a stored word with bits set above the declared range
+            yield {'k': 'file', 'spec': spec}
+        # values of FCS3.1 keywords holding characters outside ASCII, written as UTF-8 byte sequences (to the reader: bytes of a keyword value like any other)
+        for i in range(self.budget(12, 100)):
+            spec = fcsgen.gen_spec(rng, family=fcsgen.FAMILIES[i % 7])
+            if spec.get('malformed'):
+                continue
+            spec['version'] = ['FCS3.1', 'FCS3.0', 'FCS3.1'][i % 3]
+            spec['extra'] = list(spec.get('extra') or []) + [['$OP', 'Jos\xc3\xa9 M\xc3\xbcller'], ['$P1S', 'CD3 (\xc2\xb5m)'], ['NOTE', '\xe2\x82\xac5']][: 1 + i % 3]
+            yield {'k': 'file', 'spec': spec}
         # FCS 3.x files whose TEXT carries stale DATA offsets (same extent, shifted by one byte) next to correct, non-zero HEADER offsets:
         # the HEADER wins (`dataOffsets_header_priority`), so the recorded events come back
         for i in range(self.budget(24, 240)):
